@@ -56,10 +56,11 @@ func H_C08_precedence() {
 func H_C08_params() {
 	forms := []string{``, `a=x`, `b=y`, `a=x, b=y`, `b=y, a=x`}
 	f := ndChoice("form", len(forms))
+	outer := ndBool("outerSameName") // a variable named like a parameter is visible at the call site
 	x, y := ndString("x", 1), ndString("y", 1)
 	set := hxSet([]Option{WithSafeWriter(nil)},
-		"/lib.jet", `{{ block p(a="A", b="B") }}[{{ a }}|{{ b }}]{{ end }}`,
-		"/main.jet", `{{ import "/lib.jet" }}{{ yield p(`+forms[f]+`) }}`,
+		"/lib.jet", `{{ block p(a="A", b="B") }}[{{ a }}|{{ b }}]{{ end }}{{ block q(a="QA") }}{{ a = "changed" }}({{ a }}){{ end }}`,
+		"/main.jet", `{{ import "/lib.jet" }}`+c08If(outer, `{{ a := "OUT" }}{{ b := "OUT" }}`)+`{{ yield p(`+forms[f]+`) }}{{ yield q() }}`+c08If(outer, `<{{ a }}{{ b }}>`),
 	)
 	vars := make(VarMap)
 	vars.Set("x", x)
@@ -75,7 +76,11 @@ func H_C08_params() {
 		b = y
 	}
 	vfNote(out)
-	vfAssert(out == "["+a+"|"+b+"]", "named arguments matched by name in any order; omitted ones take their defaults")
+	tail := "(changed)"
+	if outer {
+		tail += "<OUTOUT>"
+	}
+	vfAssert(out == "["+a+"|"+b+"]"+tail, "named arguments matched by name in any order; omitted ones take their defaults, whatever is visible at the call site")
 }
 
 // H_C08_content: 'yield content' inside a block renders the caller-supplied content in
@@ -85,7 +90,7 @@ func H_C08_params() {
 //
 //gosym:reach rendered
 func H_C08_content() {
-	form := ndChoice("form", 4)
+	form := ndChoice("form", 6)
 	v := ndString("v", 1)
 	srcs := []string{
 		// caller content sees the caller's variable, not the block's
@@ -96,9 +101,13 @@ func H_C08_content() {
 		`{{ import "/lib.jet" }}{{ yield c() content }}o{{ yield c() content }}i{{ v }}{{ end }}o{{ end }}`,
 		// a caller-supplied content overrides the default
 		`{{ import "/lib.jet" }}{{ yield dd() content }}{{ v }}{{ end }}`,
+		// a block that yields its content twice renders it twice
+		`{{ import "/lib.jet" }}{{ yield twice() content }}{{ v }}{{ end }}`,
+		// ... also when the content itself yields another block with content
+		`{{ import "/lib.jet" }}{{ yield twice() content }}{{ yield c() content }}{{ v }}{{ end }}{{ end }}`,
 	}
 	set := hxSet([]Option{WithSafeWriter(nil)},
-		"/lib.jet", `{{ block c() }}{{ bw := 1 }}({{ yield content }}){{ end }}{{ block dd() }}<{{ yield content }}>{{ content }}DEF{{ end }}`,
+		"/lib.jet", `{{ block c() }}{{ bw := 1 }}({{ yield content }}){{ end }}{{ block dd() }}<{{ yield content }}>{{ content }}DEF{{ end }}{{ block twice() }}[{{ yield content }}|{{ yield content }}]{{ content }}T{{ end }}`,
 		"/main.jet", srcs[form],
 	)
 	vars := make(VarMap)
@@ -114,8 +123,12 @@ func H_C08_content() {
 		want = "(DEF" + v + ")"
 	case 2:
 		want = "(o(i" + v + ")o)"
-	default:
+	case 3:
 		want = "<" + v + ">"
+	case 4:
+		want = "[" + v + "|" + v + "]"
+	default:
+		want = "[(" + v + ")|(" + v + ")]"
 	}
 	vfNote(out)
 	vfAssert(out == want, "content renders in the caller's scope; defaults at definition sites")
@@ -146,4 +159,11 @@ func H_C08_placement() {
 		one += "]"
 	}
 	vfAssert(out == one+one, "recursive yields inside range/if resolve to the same definition")
+}
+
+func c08If(c bool, s string) string {
+	if c {
+		return s
+	}
+	return ""
 }
